@@ -1,6 +1,8 @@
+mod decode;
 mod exec;
 mod gen_c07;
 mod gen_mem;
+mod gen_prog;
 mod util;
 
 fn main() {
@@ -17,6 +19,12 @@ fn main() {
                 "C08" => gen_mem::gen_c08(tier, seed, &mut out),
                 "C09" => gen_mem::gen_c09(tier, seed, &mut out),
                 "C10" => gen_mem::gen_c10(tier, seed, &mut out),
+                "C11" => gen_prog::gen_c11(tier, seed, &mut out),
+                "C12" => gen_prog::gen_c12(tier, seed, &mut out),
+                "C13" => gen_prog::gen_c13(tier, seed, &mut out),
+                "C14" => gen_prog::gen_c14(tier, seed, &mut out),
+                "C17" => gen_prog::gen_c17(tier, seed, &mut out),
+                "C18" => gen_prog::gen_c18(tier, seed, &mut out),
                 _ => {
                     eprintln!("unknown property {}", prop);
                     std::process::exit(2);
